@@ -316,7 +316,7 @@ func (field *ColumnDescription) Dump() []byte {
 	data = append(data, 0, 0)
 
 	if field.DefaultValue != nil {
-		data = append(data, base.Uint64ToBytes(field.DefaultValueLength)...)
+		data = append(data, base.PutLengthEncodedInt(field.DefaultValueLength)...)
 		data = append(data, field.DefaultValue...)
 	}
 
